@@ -19,8 +19,8 @@ CONSTANTS Dev,          \* device table: id -> [id, kind, dual, eos, rep, tmo, d
           BPG,          \* balls per game
           ReEnable, SearchHold, EosLong, MaxHits,
           MaxOps, MaxTime, MaxGames, Deviations
-VARIABLES cfg, phase, ball, tflag, pendEnd, last, s, btn, eos, eosAt, now, nops, games, act
-vars == <<cfg, phase, ball, tflag, pendEnd, last, s, btn, eos, eosAt, now, nops, games, act>>
+VARIABLES cfg, phase, ball, tflag, pendEnd, collect, snap, last, s, btn, eos, eosAt, now, nops, games, act
+vars == <<cfg, phase, ball, tflag, pendEnd, collect, snap, last, s, btn, eos, eosAt, now, nops, games, act>>
 
 Devices == DOMAIN Dev
 Flippers == {d \in Devices : Dev[d].kind = "flipper"}
@@ -50,7 +50,8 @@ Keys(R) == {<<r[1], r[2]>> : r \in R}
 InPlay == phase = "ballLive" /\ ~tflag
 
 InitWith(c) ==
-    /\ cfg = c /\ phase = "noGame" /\ ball = 0 /\ tflag = FALSE /\ pendEnd = FALSE /\ last = FALSE
+    /\ cfg = c /\ phase = "noGame" /\ ball = 0 /\ tflag = FALSE /\ pendEnd = FALSE /\ collect = FALSE /\ snap = FALSE
+    /\ last = FALSE
     /\ s = [en |-> [d \in Devices |-> FALSE], man |-> [d \in Devices |-> FALSE],
             flip |-> [f \in Flippers |-> FALSE], on |-> [k \in FCoils |-> FALSE],
             reAt |-> [a \in Autos |-> 0], hits |-> [a \in Autos |-> 0], srAt |-> [f \in Flippers |-> 0],
@@ -104,7 +105,7 @@ S0 == [s EXCEPT !.calls = {}]
 
 \* ---- explicit requests (control events or direct calls), at any time ------------------------------------------
 Req == nops < MaxOps /\ nops' = nops + 1
-Same == UNCHANGED <<cfg, phase, ball, tflag, pendEnd, last, btn, eos, eosAt, now, games>>
+Same == UNCHANGED <<cfg, phase, ball, tflag, pendEnd, collect, snap, last, btn, eos, eosAt, now, games>>
 Enable(d) == /\ d \in cfg.active /\ Req /\ Same
              /\ s' = [DoEnable(S0, {d}, now) EXCEPT !.man[d] = IF InPlay THEN @ ELSE TRUE]
              /\ act' = [op |-> "enable", d |-> d]
@@ -119,7 +120,7 @@ BallSearch(d) == /\ d \in cfg.active /\ Req /\ Same /\ act' = [op |-> "search", 
 Hit(d, n) == /\ d \in cfg.active \cap Autos /\ n \in 1..2 /\ Req /\ Same /\ act' = [op |-> "hit", d |-> d, n |-> n]
              /\ s' = IF n = 1 THEN Hit1(S0, d) ELSE Hit1(Hit1(S0, d), d)
 \* cabinet button / EOS switch of a flipper whose EOS repulse is emulated by switch handlers
-SameSw == UNCHANGED <<cfg, phase, ball, tflag, pendEnd, last, now, games>>
+SameSw == UNCHANGED <<cfg, phase, ball, tflag, pendEnd, collect, snap, last, now, games>>
 BtnPress(r) == /\ r \in cfg.active \cap Reps /\ ~btn[r] /\ Req /\ SameSw /\ UNCHANGED <<eos, eosAt>>
                /\ btn' = [btn EXCEPT ![r] = TRUE] /\ act' = [op |-> "btn", d |-> r, st |-> 1]
                /\ s' = IF r \in s.mgr THEN [S0 EXCEPT !.hBtn[r] = TRUE] ELSE S0
@@ -138,7 +139,7 @@ EosOpen(r) == /\ r \in cfg.active \cap Reps /\ eos[r] /\ Req /\ SameSw /\ UNCHAN
                       ELSE [S0 EXCEPT !.longAt[r] = 0]
 \* one unit of time: hit windows run out; due timers fire (ball search release, EOS debounce, autofire re-enable)
 Adv == /\ now < MaxTime /\ now' = now + 1
-       /\ UNCHANGED <<cfg, phase, ball, tflag, pendEnd, last, btn, eos, eosAt, nops, games>>
+       /\ UNCHANGED <<cfg, phase, ball, tflag, pendEnd, collect, snap, last, btn, eos, eosAt, nops, games>>
        /\ LET SR == {f \in Flippers : s.srAt[f] = now'}
               LG == {r \in Reps : s.longAt[r] = now'}
               RE == {a \in Autos : s.reAt[a] = now'}
@@ -151,52 +152,64 @@ Adv == /\ now < MaxTime /\ now' = now + 1
        /\ act' = [op |-> "adv"]
 
 \* ---- game lifecycle ------------------------------------------------------------------------------------------
-\* ball_starting (a queue event, held when cfg.holdS) then ball_started
+\* Queue events run their handlers one after the other in priority order over a snapshot of the handler list: a hold
+\* of ball_ending by a mode (cfg.holdE, driver priority 50) comes before the tilt mode's own ball_ending handler
+\* (priority -1), which exists only if the tilt happened before ball_ending was posted (`snap`).
+\* tflag: game.tilted;  pendEnd: the ball was ended (tilt) while ball_starting was held;  collect: the tilt mode waits
+\* for the balls on the playfield.
+GameEnds(lst) == lst \/ ball = BPG
+\* ball_starting (held when cfg.holdS) then ball_started
 BeginBall(st) == IF cfg.holdS THEN phase' = "ballStarting" /\ s' = st
                  ELSE phase' = "ballLive" /\ s' = DoEnable(st, DefaultEn, now)
 \* ball_ended: next ball, or the game ends
-AfterBall(st, tf, lst) ==
-    IF lst \/ ball = BPG
-    THEN phase' = "noGame" /\ s' = st /\ ball' = 0 /\ tflag' = FALSE /\ last' = FALSE
-    ELSE ball' = ball + 1 /\ tflag' = tf /\ last' = FALSE /\ BeginBall(st)
-\* ball_will_end has been handled (st); ball_ending is a queue event, held when cfg.holdE
-EndBall(st, tf, lst) ==
-    IF cfg.holdE THEN phase' = "ballEnding" /\ s' = st /\ tflag' = tf /\ last' = lst /\ UNCHANGED ball
-    ELSE AfterBall(st, tf, lst)
+AfterBall(st, lst) == IF GameEnds(lst) THEN phase' = "noGame" /\ s' = st /\ ball' = 0 /\ last' = FALSE
+                      ELSE ball' = ball + 1 /\ last' = FALSE /\ BeginBall(st)
 LSame == UNCHANGED <<cfg, btn, eos, eosAt, now, nops>>
 StartGame == /\ phase = "noGame" /\ games < MaxGames /\ games' = games + 1 /\ LSame
-             /\ ball' = 1 /\ tflag' = FALSE /\ pendEnd' = FALSE /\ last' = FALSE /\ BeginBall(S0)
-             /\ act' = [op |-> "start"]
+             /\ ball' = 1 /\ tflag' = FALSE /\ pendEnd' = FALSE /\ collect' = FALSE /\ snap' = FALSE /\ last' = FALSE
+             /\ BeginBall(S0) /\ act' = [op |-> "start"]
+\* ball_will_end has been handled (st); ball_ending is posted
+EndBall(st, lst) ==
+    IF cfg.holdE THEN phase' = "ballEnding" /\ s' = st /\ last' = lst /\ snap' = tflag /\ UNCHANGED <<ball, tflag>>
+    ELSE tflag' = FALSE /\ snap' = FALSE /\ AfterBall(st, lst)        \* a tilt handler, if any, finds nothing to collect
 \* ball_started enables; a tilt that arrived while ball_starting was held ends the ball right away
-ReleaseStart == /\ phase = "ballStarting" /\ LSame /\ UNCHANGED games /\ act' = [op |-> "relstart"]
+ReleaseStart == /\ phase = "ballStarting" /\ LSame /\ UNCHANGED <<games, collect>> /\ act' = [op |-> "relstart"]
                 /\ LET st1 == DoEnable(S0, DefaultEn, now) IN
-                   IF pendEnd THEN pendEnd' = FALSE /\ EndBall(DoDisable(st1, Devices), FALSE, last)
-                   ELSE phase' = "ballLive" /\ s' = st1 /\ UNCHANGED <<ball, tflag, last, pendEnd>>
-Drain == /\ phase = "ballLive" /\ LSame /\ UNCHANGED <<games, pendEnd>> /\ act' = [op |-> "drain"]
-         /\ EndBall(DoDisable(S0, Devices), FALSE, last)
-EndGame == /\ phase = "ballLive" /\ LSame /\ UNCHANGED <<games, pendEnd>> /\ act' = [op |-> "endgame"]
-           /\ EndBall(DoDisable(S0, Devices), FALSE, TRUE)
-ReleaseEnd == /\ phase = "ballEnding" /\ LSame /\ UNCHANGED <<games, pendEnd>> /\ act' = [op |-> "relend"]
-              /\ AfterBall(S0, IF "TiltCarriesOver" \in Deviations THEN tflag ELSE FALSE, last)
-\* the tilt switch.  With a ball in play: devices are disabled at once and the ball ends when the balls are collected
-\* (phase "tilted"); while the ball is starting: it ends as soon as it has started; otherwise nothing to disable.
+                   IF pendEnd THEN pendEnd' = FALSE /\ EndBall(DoDisable(st1, Devices), last)
+                   ELSE phase' = "ballLive" /\ s' = st1 /\ UNCHANGED <<ball, tflag, last, pendEnd, snap>>
+Drain == /\ phase = "ballLive" /\ LSame /\ UNCHANGED <<games, pendEnd, collect>> /\ act' = [op |-> "drain"]
+         /\ EndBall(DoDisable(S0, Devices), last)
+EndGame == /\ phase = "ballLive" /\ LSame /\ UNCHANGED <<games, pendEnd, collect>> /\ act' = [op |-> "endgame"]
+           /\ EndBall(DoDisable(S0, Devices), TRUE)
+\* the hold of ball_ending is released: the tilt mode's handler (if in the snapshot) runs, then the ball has ended
+ReleaseEnd == /\ phase = "ballEnding" /\ LSame /\ UNCHANGED <<games, pendEnd, collect>> /\ act' = [op |-> "relend"]
+              /\ IF tflag /\ collect
+                 THEN phase' = "tilted" /\ s' = S0 /\ UNCHANGED <<ball, last, tflag, snap>>
+                 ELSE /\ tflag' = (tflag /\ ~snap /\ "TiltCarriesOver" \in Deviations /\ ~GameEnds(last))
+                      /\ snap' = FALSE /\ AfterBall(S0, last)
+\* the tilt switch.  With a ball in play: devices are disabled at once and the ball ends when the balls are collected;
+\* while the ball is starting: it ends as soon as it has started; while it is ending: nothing left to disable.
 \* (not offered while the last ball is ending: a tilt-mode handler would be left behind for the next game)
 Tilt == /\ Req /\ UNCHANGED <<cfg, btn, eos, eosAt, now, games, ball, last>> /\ act' = [op |-> "tilt"]
-        /\ ~(phase = "ballEnding" /\ (last \/ ball = BPG))
+        /\ ~(phase = "ballEnding" /\ GameEnds(last))
         /\ IF phase = "ballLive" /\ ~tflag
-           THEN tflag' = TRUE /\ phase' = "tilted" /\ s' = DoDisable(S0, Devices) /\ UNCHANGED pendEnd
+           THEN /\ tflag' = TRUE /\ collect' = TRUE /\ s' = DoDisable(S0, Devices) /\ UNCHANGED pendEnd
+                /\ IF cfg.holdE THEN phase' = "ballEnding" /\ snap' = TRUE ELSE phase' = "tilted" /\ UNCHANGED snap
            ELSE IF phase = "ballStarting" /\ ~tflag
-           THEN tflag' = TRUE /\ pendEnd' = TRUE /\ s' = S0 /\ UNCHANGED phase
+           THEN tflag' = TRUE /\ pendEnd' = TRUE /\ s' = S0 /\ UNCHANGED <<phase, collect, snap>>
            ELSE IF phase = "ballEnding" /\ ~tflag
-           THEN tflag' = TRUE /\ s' = S0 /\ UNCHANGED <<phase, pendEnd>>
-           ELSE s' = S0 /\ UNCHANGED <<phase, pendEnd, tflag>>
-TiltDrain == /\ phase = "tilted" /\ LSame /\ UNCHANGED <<games, pendEnd>> /\ act' = [op |-> "tiltdrain"]
-             /\ EndBall(S0, FALSE, last)
+           THEN tflag' = TRUE /\ s' = S0 /\ UNCHANGED <<phase, pendEnd, collect, snap>>
+           ELSE s' = S0 /\ UNCHANGED <<phase, pendEnd, tflag, collect, snap>>
+\* the tilted balls have drained
+TiltDrain == /\ collect /\ phase \in {"ballEnding", "tilted"} /\ LSame /\ UNCHANGED <<games, pendEnd>>
+             /\ act' = [op |-> "tiltdrain"] /\ collect' = FALSE /\ tflag' = FALSE
+             /\ IF phase = "tilted" THEN snap' = FALSE /\ AfterBall(S0, last)
+                ELSE s' = S0 /\ UNCHANGED <<phase, ball, last, snap>>
 \* service mode stops the game and posts service_mode_entered (no further game in this run, see driver)
-ServiceEnter == /\ phase \notin {"service", "tilted"} /\ LSame /\ act' = [op |-> "service"]
+ServiceEnter == /\ phase \notin {"service", "tilted"} /\ ~collect /\ LSame /\ act' = [op |-> "service"]
                 /\ phase' = "service" /\ s' = DoDisable(S0, Devices) /\ tflag' = FALSE /\ pendEnd' = FALSE
-                /\ last' = FALSE /\ ball' = 0 /\ games' = MaxGames
-ServiceExit == /\ phase = "service" /\ LSame /\ UNCHANGED <<games, ball, tflag, pendEnd, last>>
+                /\ collect' = FALSE /\ snap' = FALSE /\ last' = FALSE /\ ball' = 0 /\ games' = MaxGames
+ServiceExit == /\ phase = "service" /\ LSame /\ UNCHANGED <<games, ball, tflag, pendEnd, collect, snap, last>>
                /\ phase' = "noGame" /\ s' = S0 /\ act' = [op |-> "svcexit"]
 
 Next == \/ \E d \in Devices : Enable(d) \/ Disable(d) \/ BallSearch(d) \/ SwFlip(d) \/ SwRelease(d)
@@ -220,7 +233,8 @@ NoCoilLeftOn == \A f \in Flippers : ~s.en[f] => \A c \in FCoilsOf(f) : ~s.on[c]
 NoStrayReenable == \A a \in Autos : s.reAt[a] # 0 => (InPlay \/ s.man[a])
 TypeOK == /\ phase \in {"noGame", "ballStarting", "ballLive", "ballEnding", "tilted", "service"}
           /\ ball \in 0..BPG /\ tflag \in BOOLEAN /\ pendEnd \in BOOLEAN /\ last \in BOOLEAN
-          /\ (phase \in {"noGame", "service"} => ~tflag /\ ~pendEnd)
-          /\ (phase = "tilted" => tflag)
+          /\ collect \in BOOLEAN /\ snap \in BOOLEAN
+          /\ (phase \in {"noGame", "service"} => ~tflag /\ ~pendEnd /\ ~collect)
+          /\ (phase = "tilted" => tflag /\ collect) /\ (collect => tflag /\ phase \in {"ballEnding", "tilted"})
           /\ \A r \in Reps : s.longAt[r] # 0 => (r \in s.mgr /\ eos[r])
 =============================================================================
